@@ -27,6 +27,7 @@ G2(p) == ("C02" \in Relax) \/ p      \* forwarding: terms, claim-if-known, fail-
 G9(p) == ("C09" \in Relax) \/ p      \* monitor-update ordering and release conditions
 G10(p) == ("C10" \in Relax) \/ p     \* restart: stale managers close, others resume
 G12(p) == ("C12" \in Relax) \/ p     \* serialization round trips
+G14(p) == ("C14" \in Relax) \/ p     \* attribution data end to end (the onion engine's property, observed on real networks)
 
 VARIABLES
   par,    \* [chan -> parameters]  value_sat, funder (1|2), type, dust[1..2], feerate0
